@@ -342,6 +342,11 @@ pub fn enum_fctx(full: bool, f: &mut dyn FnMut(&Cfg)) {
         Box::new(|j| vec![vec![Sym::T(2)], vec![Sym::T(2), Sym::N(j)]]),
         Box::new(|j| vec![vec![Sym::T(2)], vec![Sym::N(j), Sym::T(2)]]),
         Box::new(|_j| vec![vec![]]),
+        // bodies that start or end with a shared nonterminal P (index 3, P = c): the states to be
+        // split by context are then entered over a nonterminal (goto) edge, not a shift
+        Box::new(|_j| vec![vec![Sym::N(3), Sym::T(2)]]),
+        Box::new(|_j| vec![vec![Sym::T(2), Sym::N(3)]]),
+        Box::new(|_j| vec![vec![Sym::N(3)]]),
     ];
     let nctx = 2usize;
     let nred = 2usize;
@@ -380,9 +385,54 @@ pub fn enum_fctx(full: bool, f: &mut dyn FnMut(&Cfg)) {
                 for j in 0..nred {
                     alts.push(body(1 + j as u8));
                 }
-                let g = Cfg { nts: 1 + nred, terms: 4, alts, pubs: vec![0] };
+                let uses_p = alts.iter().flatten().flatten().any(|s| *s == Sym::N(3));
+                if uses_p {
+                    alts.push(vec![vec![Sym::T(2)]]);
+                }
+                let g = Cfg { nts: alts.len(), terms: 4, alts, pubs: vec![0] };
                 f(&g);
             }
         }
     }
+}
+
+/// F-opt: grammars whose recursive-ascent parser has states with *optional* stack slots (a
+/// successor state may or may not consume the top of the stack: items `X = A B (*) C` next to
+/// `Y = B (*) C`) in which an empty production is reduced, also with end-of-input as lookahead
+/// (really, or because LALR/lane merging put it there). F-cfg(S) is too small to contain them.
+pub fn enum_fopt(f: &mut dyn FnMut(&Cfg)) {
+    use Sym::{N, T};
+    let mut emit = |alts: Vec<Vec<Rhs>>, terms: usize| {
+        let g = Cfg { nts: alts.len(), terms, alts, pubs: vec![0] };
+        f(&g);
+    };
+    // N0 = pre N1 [y] | pre N2 ; N1 = eps [| d] ; N2 = N1 c
+    for pre in [vec![T(0)], vec![T(0), T(1)]] {
+        for y in [None, Some(T(1))] {
+            for rich in [false, true] {
+                let mut a0 = pre.clone();
+                a0.push(N(1));
+                if let Some(y) = y {
+                    a0.push(y);
+                }
+                let mut a1 = pre.clone();
+                a1.push(N(2));
+                let n1 = if rich { vec![vec![], vec![T(3)]] } else { vec![vec![]] };
+                emit(vec![vec![a0, a1], n1, vec![vec![N(1), T(2)]]], 4);
+            }
+        }
+    }
+    // two contexts, the inner part shared: N0 = a N1 | b N1 c ; N1 = d N2 [N4] | d N3 ; N2 = eps ; N3 = N2 e ; N4 = eps | f
+    for with_tail in [false, true] {
+        let mut p0 = vec![T(3), N(2)];
+        let mut alts = vec![vec![vec![T(0), N(1)], vec![T(1), N(1), T(2)]], vec![], vec![vec![]], vec![vec![N(2), T(4)]]];
+        if with_tail {
+            p0.push(N(4));
+            alts.push(vec![vec![], vec![T(5)]]);
+        }
+        alts[1] = vec![p0, vec![T(3), N(3)]];
+        emit(alts, if with_tail { 6 } else { 5 });
+    }
+    // the same with the empty production inside a list
+    emit(vec![vec![vec![T(0), N(1)], vec![T(0), N(2)]], vec![vec![], vec![N(1), T(3)]], vec![vec![N(1), T(2)]]], 4);
 }
